@@ -1095,7 +1095,9 @@ func (p *Parser) parseGroupBy(stmt *SelectStatement) error {
 			flushItem()
 			break
 		}
-		if tok.Type == TokenComma {
+		if tok.Type == TokenComma && parenLevel == 0 {
+			// only a top-level comma separates grouping items; a comma between the
+			// arguments of a function key (substring(a, 0, 2)) stays inside its item
 			flushItem()
 			continue
 		}
